@@ -958,7 +958,11 @@ func c08Run(in *bufio.Scanner, w *bufio.Writer) {
 				// query from several goroutines at once — every one of them must see what a lone
 				// caller sees (GetOrBuildBucket's concurrent-first-caller contract).
 				concDiff := ""
-				if g != nil && c08NewPath(seenPaths, f[8]) {
+				if g != nil && c08NewPath(seenPaths, f[8]) && from == 0 && limit == 0 {
+					// build the ordered index first, alone: buildBeacon itself is not safe for concurrent
+					// first readers (a second reader sees `initialized` before the slice is filled), which
+					// is not this property's subject
+					_ = runQ(&hydrapb.FilterGroup{Logic: hydrapb.FilterLogic_OR, SubGroups: []*hydrapb.FilterGroup{g}})
 					const n = 12
 					res := make([]string, n)
 					start := make(chan struct{})
